@@ -224,5 +224,23 @@ Proof. intros H. unfold topoOrder. cbn [dfs]. rewrite H. cbn [negb orb fst memb 
 
 End DfsP.
 
+(* example: in the heap of TrackEx the result y = m.Add(c) (id 5) reaches its tracked Broadcast
+   operand 3, then m (2), then the leaf x (0); the untracked c (1) and its Broadcast (4) are not reached *)
+Module DfsEx.
+Import TrackEx.
+#[local] Existing Instance Z_scalar.
+
+Example ex_order : topoOrder e5 5 = [5; 3; 2; 0] /\ topoOrder e5 6 = [] /\ topoOrder e5 2 = [2; 0].
+Proof. vm_compute. repeat split. Qed.
+
+Example ex_order_spec : NoDup [5; 3; 2; 0] /\ ordered e5 [5; 3; 2; 0] /\ (treach e5 5 0 /\ ~ treach e5 5 4).
+Proof.
+  destruct (topoOrder_spec e5 5 ex_wf) as (Hnd & Ho & Hr). destruct ex_order as (E & _). rewrite E in *.
+  split; [exact Hnd|]. split; [exact Ho|]. split.
+  - apply Hr. right; right; right; left; reflexivity.
+  - intros X. apply Hr in X. cbn in X. intuition discriminate.
+Qed.
+End DfsEx.
+
 Print Assumptions topoOrder_spec.
 Print Assumptions topoOrder_pred.
